@@ -563,10 +563,16 @@ func c09CheckIndent(c *Ctx, w *c09Watch, slot int, bc c09ByteCase) {
 func c09NW(c *Ctx) int { return c.N(4, 16) }
 
 func runC09(c *Ctx) {
+	only := os.Getenv("C09_PARTS") // development aid: e.g. C09_PARTS=B runs one part; unset ⇒ everything
 	t0 := time.Now()
-	c09Bytes(c)
-	c.Note("part A (bytes) %.1fs", time.Since(t0).Seconds())
+	if only == "" || strings.Contains(only, "A") {
+		c09Bytes(c)
+		c.Note("part A (bytes) %.1fs", time.Since(t0).Seconds())
+	}
 	for _, part := range c09Parts {
+		if only != "" && !strings.Contains(only, part.name[:1]) {
+			continue
+		}
 		t1 := time.Now()
 		part.f(c)
 		c.Note("part %s %.1fs", part.name, time.Since(t1).Seconds())
